@@ -1,6 +1,6 @@
 (* C13 — pickle input is equivalent to the plain-text input for the same datapoints. *)
 From CRNG Require Import Base.ListX Base.Bytes Base.Decimal Model.PickleVM Model.Reencode Model.PickleIn Model.PyPickle
-  Proofs.ReencodeProofs Proofs.PickleInProofs Proofs.PickleIn1 Proofs.PickleIn0 Proofs.PickleIn4 Proofs.PickleInLong.
+  Proofs.ReencodeProofs Proofs.PickleInProofs Proofs.PickleIn1 Proofs.PickleIn0 Proofs.PickleIn4 Proofs.PickleInLong Proofs.PickleIn4Long.
 Local Open Scope N_scope.
 
 (* Decoding (the og-rek machine, any text-float oracle) what CPython's pickler writes in protocol 2 or 3
@@ -116,6 +116,23 @@ Theorem C13_frame_then_rest_long :
 Proof. exact handle_frameL. Qed.
 Print Assumptions C13_frame_then_rest_long.
 
+(* the same for protocol 4 (FRAME, SHORT_BINUNICODE, MEMOIZE), the default of Python 3.8 and later *)
+Theorem C13_decode_what_python_encodes_long_protocol4 :
+  forall pf ds, forallb dp_okL ds = true ->
+    unpickle pf false (py_dumps4L ds)
+    = RDone (VList (map (fun d => VTuple [VStr (d_name d); VTuple [num_valL (d_ts d); num_valL (d_val d)]]) ds)).
+Proof. exact unpickle_py_dumps4L. Qed.
+Print Assumptions C13_decode_what_python_encodes_long_protocol4.
+
+(* one connection, any number of frames of protocols 2, 3 and 4 mixed, integers of any size up to 2^1015 *)
+Theorem C13_frames_become_lines_long_mixed_protocols :
+  forall pf fmt6 fmt0 (pss : list (N * list pydp)),
+    Forall frame_ok4L pss ->
+    handle_conn pf fmt6 fmt0 (concat (map (fun pd => frame_of (payloadL pd)) pss))
+    = (concat (map (fun pd => map (fun d => EvLine (line_of fmt6 fmt0 d)) (snd pd)) pss), FinOk).
+Proof. exact handle_conn_frames4L. Qed.
+Print Assumptions C13_frames_become_lines_long_mixed_protocols.
+
 Theorem C13_long_model_extends_int32_model :
   forall proto ds, forallb dp_ok ds = true -> py_dumpsL proto ds = py_dumps proto ds /\ forallb dp_okL ds = true.
 Proof.
@@ -188,3 +205,10 @@ Example C13_long_nonvacuous :
   /\ frame_okL 2 [ {| d_name := [97]; d_ts := PyInt 2147483648; d_val := PyInt 18446744073709551621 |} ]
   /\ num_okL (PyInt (2 ^ 1015 - 1)) = true /\ num_okL (PyInt (2 ^ 1015)) = false.
 Proof. unfold frame_okL. repeat split; vm_compute; try reflexivity; discriminate. Qed.
+
+Example C13_long_protocol4_nonvacuous :
+  (* pickle.dumps([("a", (2**31, 2**64 + 5))], 4) *)
+  py_dumps4L [ {| d_name := [97]; d_ts := PyInt 2147483648; d_val := PyInt 18446744073709551621 |} ]
+  = [128;4;149;30;0;0;0;0;0;0;0;93;148;140;1;97;148;138;5;0;0;0;128;0;138;9;5;0;0;0;0;0;0;0;1;134;148;134;148;97;46]
+  /\ frame_ok4L (4, [ {| d_name := [97]; d_ts := PyInt 2147483648; d_val := PyInt 18446744073709551621 |} ]).
+Proof. unfold frame_ok4L. repeat split; vm_compute; try reflexivity; discriminate. Qed.
